@@ -10,7 +10,7 @@ Kani harnesses cannot (the equivalence of two 53-bit dividers does not terminate
 """
 import time
 
-from . import rsparse as rp
+from . import rsparse as rp, syn
 from .common import DISCHARGED, FAILED, UNDECIDED, Obligation, Undecided
 
 TYPES = [("FastFixedIn", "asynchro_fast.rs"), ("FastFixedOut", "asynchro_fast.rs"),
@@ -114,11 +114,61 @@ def effective(src, impl, fn_name, depth=0):
     return cond, val
 
 
-def stage(scratch, tier, log):
+CONFIG_FIELDS = {
+    "FastFixedIn": ["resample_ratio_original", "max_relative_ratio", "nbr_channels", "chunk_size"],
+    "FastFixedOut": ["resample_ratio_original", "max_relative_ratio", "nbr_channels", "chunk_size"],
+    "SincFixedIn": ["resample_ratio_original", "max_relative_ratio", "nbr_channels", "max_chunk_size"],
+    "SincFixedOut": ["resample_ratio_original", "max_relative_ratio", "nbr_channels", "max_chunk_size"],
+}
+
+
+def config_frame(scratch):
+    """The bounds the setters compare against are the *construction-time* values: no method other than the
+    constructors assigns original ratio, max relative ratio, channel count or the (maximum) chunk size."""
+    import re
     obs = []
     for T, f in TYPES:
         src = scratch.read(f)
-        impl = ["Resampler", "for " + T]
+        name = "C12.%s.construction_time_bounds_never_reassigned" % T
+        fn = T + "::*"
+        try:
+            sigs = syn.self_method_sigs(src)
+            bad = []
+            nfn = 0
+            for (h, s0, e0) in rp.find_impls(rp.strip_tests(src)):
+                if not re.search(r"\b%s<" % T, h):
+                    continue
+                for m in re.finditer(r"\bfn\s+([A-Za-z_][A-Za-z0-9_]*)", rp.strip_tests(src)[s0:e0]):
+                    mname = m.group(1)
+                    if mname in ("new", "new_with_interpolator"):
+                        continue
+                    try:
+                        sig, body, l0, _ = rp.find_fn(src, mname, [h.split("{")[0].strip()[:40]])
+                    except rp.ParseError:
+                        continue
+                    nfn += 1
+                    for (place, how, ln) in syn.collect_writes(body, sigs):
+                        if place in ["self." + x for x in CONFIG_FIELDS[T]]:
+                            bad.append("%s: %s" % (mname, how))
+            if nfn < 8:
+                raise Undecided("anchor lost: only %d methods of %s found" % (nfn, T))
+            if bad:
+                obs.append(Obligation(name, "syntactic", FAILED, 0.0, "complete", [fn], checks=nfn,
+                                      detail="construction-time configuration is modified after construction, so the documented ranges "
+                                             "(1..=construction-time chunk size, original/max..original*max) are no longer what the setters test: " + "; ".join(bad)))
+            else:
+                obs.append(Obligation(name, "syntactic", DISCHARGED, 0.0, "complete", [fn], checks=nfn,
+                                      detail="%d methods scanned, none assigns %s" % (nfn, ", ".join(CONFIG_FIELDS[T]))))
+        except (rp.ParseError, Undecided) as e:
+            obs.append(Obligation(name, "extraction", UNDECIDED, detail=str(e), functions=[fn]))
+    return obs
+
+
+def stage(scratch, tier, log):
+    obs = config_frame(scratch)
+    for T, f in TYPES:
+        src = scratch.read(f)
+        impl = ["Resampler", "for " + T + "<"]
         for setter, arg, spec_c, spec_v, n1, n2 in (
                 ("set_resample_ratio", "new_ratio", SPEC_ABS, "new_ratio", "condition_is_documented_range", "applies_its_argument"),
                 ("set_resample_ratio_relative", "rel_ratio", SPEC_REL, SPEC_REL_VALUE, "condition_is_documented_range",
